@@ -298,7 +298,12 @@ def bstr(t, pol=True):
 
 
 def cmp_conds(subj_term, pred_names):
-    """`a.cmp(&b)` matched against Ordering variants, as comparisons."""
+    """`a.cmp(&b)` matched against Ordering variants, as comparisons; `uN::try_from(x)` of a wider unsigned x matched
+    against Ok / Err, as the range test it is."""
+    if subj_term is not None and subj_term[0] == 'call' and subj_term[1].startswith('narrow::') and len(subj_term[2]) == 1:
+        names = frozenset(pred_names)
+        lit = '(%s::MAX < %s)' % (subj_term[1][len('narrow::'):], S.show(subj_term[2][0]))
+        return {frozenset(['Ok']): [(lit, False)], frozenset(['Err']): [(lit, True)]}.get(names)
     if subj_term is None or subj_term[0] != 'call' or subj_term[1].split('::')[-1] != 'cmp' or not subj_term[1].startswith(('std::cmp::', 'core::cmp::')) or len(subj_term[2]) != 2:
         return None
     a, b = S.show(subj_term[2][0]), S.show(subj_term[2][1])
